@@ -159,6 +159,9 @@ HARNESSES += [
       "one shared Inner: 2 reads + 1 read through a clone by the reader under test, clone before/after the first read, both drop orders, "
       "the other reader's publish at any of the atomic steps (all two-reader interleavings at atomic-step granularity)",
       stubs=[ATOMIC, "cut: from_slice_unchecked::<String> -> fixed decoding \"x\"", "instrumented: Arc::new -> same allocation + reference ledger"]),
+    H("e_lazy_parse_from_frees", "main", ["C18", "C01"], ["lazyvalue::value::Inner::parse_from", "impl Clone for Inner", "impl Drop for Inner"],
+      "same histories without the ledger's extra handles: every release really frees (CBMC dealloc-layout / double-free / use-after-free checks)",
+      stubs=[ATOMIC, "cut: from_slice_unchecked::<String> -> fixed decoding \"x\""]),
 ]
 
 HARNESSES += [
@@ -196,7 +199,7 @@ HARNESSES += [
 HARNESSES += [
     H("e_owned_load", "main", ["C18", "C01"], ["lazyvalue::owned::LazyRaw::load", "LazyRaw::clone_lazyraw", "impl Drop for LazyRaw"],
       "one shared LazyRaw: 2 loads by the reader under test + clone + drop, the other reader's publish at any atomic step",
-      stubs=[ATOMIC, "cut: Parser::load_owned_lazyvalue -> fixed decoding Bool(true)"]),
+      stubs=[ATOMIC, "cut: Parser::load_owned_lazyvalue -> fixed decoding Bool(true)", "cut: Read::from -> empty reader (unused by the cut parser)"]),
 ]
 
 HARNESSES += [
@@ -204,6 +207,24 @@ HARNESSES += [
       "40-byte buffer: neutral 'x' except a 10-byte symbolic window at 24..34 (across the block edge) and a closing quote at 38",
       stubs=[CUT_SYNTAX, MAXEPU8], timeout=1500, exp_gb=6,
       unwindset=[("::skip_string", 1, 18), ("ref_string_end", None, 42), ("ref_has_backslash", None, 42), ("windowed", None, 12), ("any_array", None, 12), ("skip_escaped_chars", None, 6), ("try_from_fn", None, 12)]),
+]
+
+HARNESSES += [
+    H("b_skip_string_unchecked_w27", "main", ["C10", "C12", "C01"], ["Parser::skip_string_unchecked (32-byte block path, escape carry between blocks)", "get_escaped_branchless_u32"],
+      "64-byte buffer: neutral 'x' except a 10-byte symbolic window at 27..37 (across the block edge) and a closing quote at 40; well-formed literals only",
+      stubs=[CUT_SYNTAX], timeout=1500, exp_gb=6,
+      unwindset=[("ref_string_end", None, 66), ("ref_has_backslash", None, 66), ("windowed", None, 12), ("::skip_string_unchecked", 1, 34)]),
+    H("b_skip_number_w29", "main", ["C02", "C14", "C08", "C01"], ["Parser::do_skip_number (32-byte block path, is_float carry, exponent inside a block)", "i8x32::{gt,bitmask}"],
+      "72-byte buffer of digits with a 10-byte symbolic window at 29..39 (lanes 27..31 of the first chunk and 0..4 of the next) and a comma at 70",
+      stubs=[CUT_SYNTAX], timeout=1800, exp_gb=6,
+      unwindset=[("ref_number_end", None, 74), ("windowed", None, 12), ("::do_skip_number", 1, 40), ("::do_skip_number", 2, 40), ("::skip_exponent", None, 40)]),
+]
+
+HARNESSES += [
+    H("m_number_visit_raw_n7", "main", ["C03", "C08"], ["Parser::parse_number_visit (copying DOM driver, use_rawnumber)", "Parser::parse_number_inplace (in-place DOM driver, use_rawnumber)"],
+      "every buffer of length <= 7 x every start index of a number x both drivers", stubs=[CUT_SYNTAX, M_NUM]),
+    H("e_owned_load_then_parse", "main", ["C01", "C13", "C18"], ["LazyRaw::load", "LazyRaw::parse", "impl Drop for LazyRaw"],
+      "sequence: optional shared read that fills the cache, then the mutable take-out, then drop of both", stubs=[ATOMIC, "cut: Parser::load_owned_lazyvalue -> fixed decoding Bool(true)", "cut: Read::from -> empty reader (unused by the cut parser)"]),
 ]
 
 CUT_PF = "cut: sonic_number::parse_float -> nondeterministic Ok(Float)/Err(FloatMustBeFinite) (classification and index only)"
